@@ -16,7 +16,8 @@ cands = re.findall(r"go test[^`\n]*?-run[ =]+['\"]?([\w^$|]+)['\"]?[^`\n#]*?(\./
 assert cands, 'no demo command with a package path found in notes.md'
 runname, pkg = cands[0]
 pkg = pkg.rstrip('/')
-cmd = "go test -vet=off -count=1 -run '%s' %s/" % (runname, pkg)
+race = '-race ' if re.search(r"go test[^`\n]*-race[^`\n]*-run[ =]+['\"]?" + re.escape(runname), notes) else ''
+cmd = "go test %s-vet=off -count=1 -run '%s' %s/" % (race, runname, pkg)
 res = {'demo_cmd': cmd, 'pkg': pkg}
 clean()
 demo_dst = os.path.join(wt, pkg, 'zz_demo_verif_test.go')
